@@ -49,6 +49,27 @@ class PseudoNetCDFType(type):
 PseudoNetCDFSelfReg = PseudoNetCDFType('pnc', (object,), dict(__doc__='Test'))
 
 
+def _valuedtype(var):
+    """
+    dtype of the values var[...] delivers. A packed netCDF variable
+    (scale_factor/add_offset) stores another type than it hands out.
+    """
+    if not isinstance(var, np.ndarray):
+        try:
+            if any(pk in var.ncattrs()
+                   for pk in ('scale_factor', 'add_offset')):
+                one = tuple(slice(0, 1) for _ in var.shape)
+                return np.asarray(var[one] if one else var[...]).dtype
+        except Exception:
+            pass
+    return var.dtype
+
+
+def _valuetype(var):
+    """type code of the values var[...] delivers"""
+    return _valuedtype(var).char
+
+
 def _getncattr(obj, key):
     """
     Attribute through the netCDF interface when the object has one: plain
@@ -2369,7 +2390,7 @@ class PseudoNetCDFFile(PseudoNetCDFSelfReg, object):
             vals = var
 
         if dtype is None:
-            dtype = vals.dtype
+            dtype = vals.dtype if withdata else _valuedtype(var)
 
         if dimensions is None:
             dimensions = var.dimensions
